@@ -7,6 +7,8 @@ from .. import oracles, gen
 
 class C02(Prop):
     pid = "C02"
+    quick = {"seeds": 120, "wall_cap": 90, "chunk": 4}
+    thorough = {"seeds": 2400, "wall_cap": 1500, "chunk": 8}
     level = "fault_enumeration"
     rule = ("per seed one base scenario: an implicit method (16 classes; float64 -> MINPACK path, longdouble -> built-in dogleg path; FD or user Jacobian; "
             "Newton-cap and retry-cap knobs) or an explicit/splitting method on a random smooth program.  For implicit bases the fault-free run is "
@@ -17,8 +19,6 @@ class C02(Prop):
     assumptions = ["the reference step uses the class tables themselves (table correctness is C01, not claimed)",
                    "explicit/splitting step-formula clause is input sampling executed inside the simulator (by-product, labelled as such)",
                    "stage residual bound: 10*desired_tol + 256*eps*(1+max|k|) in max-norm, desired_tol as computed by the integrator (0.5*(atol+rtol*max|y|))"]
-    quick = {"seeds": 160, "wall_cap": 80, "chunk": 4}
-    thorough = {"seeds": 4000, "wall_cap": 1200, "chunk": 8}
     KINDS = ["nonconv", "linalg", "minpack", "fnan"]
 
     def monitors(self, scn):
